@@ -429,6 +429,7 @@ type Contract struct {
 	Fresh    bool      // extern: the first result is a newly allocated object
 	NoWrap   bool      // signed 64-bit arithmetic is proved overflow-free and then treated as mathematical
 	NoWrapProps []string // nowrap[C02]: only in the checks of these properties
+	Unreachable []string // "return@3": return statements (source order) that are meant to be dead under the contract
 }
 
 type SpecFunc struct {
@@ -683,6 +684,8 @@ func addClause(c *Contract, cl *Clause) {
 	case "nowrap":
 		c.NoWrap = true
 		c.NoWrapProps = cl.Props
+	case "unreachable":
+		c.Unreachable = append(c.Unreachable, cl.Names...)
 	}
 }
 
@@ -736,12 +739,18 @@ func parseClause(word, rest string) (*Clause, error) {
 		}
 		// "f as pred": the callback's result as a function of its arguments
 		// becomes available to the ensures clauses under the name pred
+		// "f once": the callback runs exactly once (go statements, errgroup.Go): its effect is
+		// that of one call at this point (scheduling is not modelled)
+		if strings.HasSuffix(strings.TrimSpace(name), " once") {
+			name = strings.TrimSuffix(strings.TrimSpace(name), " once")
+			cl.Label = "once"
+		}
 		if idx := strings.Index(name, " as "); idx >= 0 {
 			cl.Handle = strings.TrimSpace(name[idx+4:])
 			name = strings.TrimSpace(name[:idx])
 		}
 		cl.Names = []string{name}
-	case "props", "results", "use", "nullable", "permutes", "touches":
+	case "props", "results", "use", "nullable", "permutes", "touches", "unreachable":
 		cl.Kind = word
 		cl.Names = strings.Fields(strings.ReplaceAll(rest, ",", " "))
 	case "at":
